@@ -244,3 +244,21 @@ LEVEL_TEXT = ("Machine-checked refinement: for every allocator behaviour and eve
               "and the ASan/UBSan build on generated histories aimed at the proof's case-split boundaries.")
 LEVEL_NOTE = ("Trusted: Coq kernel; extraction + OCaml glue; harness; libc vsnprintf/vasprintf/realloc; the theorems are about the Gallina "
               "model, the C code is tied to it only by the checked correspondence (sampled histories, not all).")
+
+
+# ---- source -> Gallina translator for the header constants this model uses (tr/lib_consts.py; LibImplCheck.v)
+LIB_TRANSLATOR = {}
+
+
+def coq_extra():
+    import sys as _sys, os as _os
+    import fw as _fw
+    _sys.path.insert(0, _os.path.join(_fw.VERIF, "tr"))
+    import lib_consts
+    files, info = lib_consts.coq_extra_for(_fw)
+    LIB_TRANSLATOR.update(info)
+    return files
+
+
+def extra_coverage():
+    return dict(lib_translator=dict(LIB_TRANSLATOR))
